@@ -71,6 +71,9 @@ func runC05(tier string, _ []string) int {
 		modelUnsure := false
 		for k := 0; k < perGraph; k++ {
 			class := classes[(k+i)%len(classes)]
+			if k == perGraph-1 && i%3 == 0 {
+				class = "cycle-through-root" // changes what is above the root: last request of the case
+			}
 			var subject string
 			var pts data.Points
 			var raw []byte
@@ -287,6 +290,22 @@ func runC05(tier string, _ []string) int {
 				// other -> mid -> ... -> low exists now; low -> other would close it
 				node, parent, edgeWrite, mustRefuse = other, low, true, true
 				pts = data.Points{{Type: data.PointTypeTombstone, Time: d.now(), Value: 0}, {Type: data.PointTypeNodeType, Text: d.g.Types[other]}}
+			case "cycle-through-root":
+				// the instance root itself is mirrored below a foreign id (accepted: the root is a node like any
+				// other below it); that id is then an ancestor of everything and must not be placed below the root
+				x := d.newID()
+				rpts := data.Points{{Type: data.PointTypeTombstone, Time: d.now(), Value: 0}, {Type: data.PointTypeNodeType, Text: "device"}}
+				e, err := d.sendEdge(in.RootID, x, rpts)
+				if err != nil {
+					c.Violate("refused-write:request-not-answered:"+class, fmt.Sprint("mirror of the root below a foreign id: ", err), map[string]any{"case": i, "ops": d.Log})
+					return
+				}
+				if e != "" {
+					continue // refusing that mirror is fine too
+				}
+				below := d.pickNode()
+				node, parent, edgeWrite, mustRefuse = x, below, true, true
+				pts = data.Points{{Type: data.PointTypeTombstone, Time: d.now(), Value: 0}, {Type: data.PointTypeNodeType, Text: "group"}}
 			case "cycle-detached":
 				// a child edge is accepted below a parent that is not attached anywhere yet (import / sync
 				// order); that parent's first edge is then aimed below its own descendant
